@@ -293,7 +293,11 @@ pub fn parse(file: &[u8], strict: bool) -> Result<View, String> {
     }
     let secs = [("root", h.root_off, h.root_len), ("metadata", h.meta_off, h.meta_len), ("leaf", h.leaf_off, h.leaf_len), ("data", h.data_off, h.data_len)];
     for (n, o, l) in secs {
-        window(file, o, l, n)?;
+        // a file whose tile data was cut off (the upstream "without_data" fixture) still has valid directories:
+        // only the strict mode (files this library wrote) insists on the data section being present
+        if strict || n != "data" {
+            window(file, o, l, n)?;
+        }
         if strict && l > 0 && o < 127 {
             return Err(format!("{n} section overlaps the header"));
         }
